@@ -8,6 +8,7 @@
 // operation (F) or after the last one (L) — the view of every slot:
 //   D                                  destroyed
 //   <has_value><type>:<p...>:<cp...>:<r...>
+// (followed by :f<k> when k > 0 casts to types never stored in the pool succeeded — always a failure)
 // with type in v(oid) i d s m p, and per held type of the pool (i,d,s,m,p) the outcome of
 // `any_cast<T>(&a)` (p), `any_cast<T>(&const a)` (cp), `any_cast<const T&>(const a)` (r): the value
 // code, or x for nullptr / bad_any_cast.  Then every container is destroyed and the final counters
@@ -134,6 +135,11 @@ template <class T> static std::string poke(long a, long code) {
     if (T* p = any_cast<T>(pool[a])) *p = V<T>::mk(code);
     return "ok";
 }
+// mutation through the reference form: any_cast<T&>(a) = v
+template <class T> static std::string poke_ref(long a, long code) {
+    try { any_cast<T&>(*pool[a]) = V<T>::mk(code); return "ok"; }
+    catch (const bad_any_cast&) { return "r=x"; }
+}
 template <class T> static std::string cast_val(long a, char form) {
     try {
         switch (form) {
@@ -160,6 +166,25 @@ template <class T> static std::string vr(const any& a) {
     try { const T& r = any_cast<const T&>(a); return V<T>::code(r); }
     catch (const bad_any_cast&) { return "x"; }
 }
+// casts to types that are never stored (same sizes / related types of the stored ones): how many succeed
+struct Other8 { long x; };
+template <class T> static int fp(any& a) {
+    int n = 0;
+    if (any_cast<T>(&a)) ++n;
+    if (any_cast<T>(static_cast<const any*>(&a))) ++n;
+    return n;
+}
+static int foreign_hits(any& a) {
+    return fp<unsigned>(a) + fp<float>(a) + fp<long>(a) + fp<unsigned long>(a) + fp<char>(a) + fp<bool>(a) + fp<Other8>(a)
+         + fp<const char*>(a) + fp<std::vector<double> >(a) + fp<Eigen::VectorXd>(a) + fp<Eigen::Matrix2d>(a) + fp<Eigen::MatrixXf>(a)
+         + fp<Probe*>(a) + fp<std::string*>(a) + fp<any>(a) + fp<any*>(a);
+}
+static int foreign_value_hits(const any& a) {
+    int n = 0;
+    try { (void)any_cast<long>(a); ++n; } catch (const bad_any_cast&) {}
+    try { (void)any_cast<const Eigen::VectorXd&>(a); ++n; } catch (const bad_any_cast&) {}
+    return n;
+}
 static std::string slot_view(long k) {
     if (!pool[k]) return "D";
     any& a = *pool[k];
@@ -169,6 +194,8 @@ static std::string slot_view(long k) {
     s += ':'; s += vp<int>(a) + "," + vp<double>(a) + "," + vp<std::string>(a) + "," + vp<Eigen::MatrixXd>(a) + "," + vp<Probe>(a);
     s += ':'; s += vcp<int>(a) + "," + vcp<double>(a) + "," + vcp<std::string>(a) + "," + vcp<Eigen::MatrixXd>(a) + "," + vcp<Probe>(a);
     s += ':'; s += vr<int>(a) + "," + vr<double>(a) + "," + vr<std::string>(a) + "," + vr<Eigen::MatrixXd>(a) + "," + vr<Probe>(a);
+    int fh = foreign_hits(a) + foreign_value_hits(a);
+    if (fh) s += ":f" + std::to_string(fh);      // a cast to a type that was never stored succeeded
     return s;
 }
 static std::string counters() {
@@ -246,6 +273,12 @@ static std::string exec_op(const std::string& tok) {
     if (op == "pk" && f.size() == 4) {
         long a = num(f[1]); long code = num(f[3]); if (!is_live(a)) return "inv";
 #define CALL(T) poke<T>(a, code)
+        return BY_TAG(f[2], CALL);
+#undef CALL
+    }
+    if (op == "pr" && f.size() == 4) {
+        long a = num(f[1]); long code = num(f[3]); if (!is_live(a)) return "inv";
+#define CALL(T) poke_ref<T>(a, code)
         return BY_TAG(f[2], CALL);
 #undef CALL
     }
